@@ -438,7 +438,7 @@ func sanitizeFile(s string) string {
 }
 
 // retryTimeouts: an obligation none of whose sub-goals was refuted, and whose
-// undecided sub-goals only ran out of time, gets one more attempt with three times
+// undecided sub-goals only ran out of time, gets one more attempt with nine times
 // the time limit and little parallelism. On a loaded machine this separates "the
 // solvers were starved" from "does not discharge"; it never turns a refutation
 // (sat) into a pass.
@@ -454,12 +454,14 @@ func (v *Verifier) retryTimeouts(obs []*Oblig, dir string, all bool) {
 		return
 	}
 	rv := *v
-	rv.Timeout = v.Timeout * 3
+	// nine times the limit, two obligations at a time: the floating-point obligations of the histogram arm need 13-19 s
+	// on an idle machine and ran out of a 30 s limit on a busy one (11.4, false alarm 11)
+	rv.Timeout = v.Timeout * 9
 	for _, o := range again {
 		o.FirstTry = o.Output
 		o.Status, o.Output = "", ""
 	}
-	rv.solveAll(again, dir, all, 3)
+	rv.solveAll(again, dir, all, 2)
 	for _, o := range again {
 		o.Output = o.Output + " (second attempt with a " + fmt.Sprint(rv.Timeout) + " s limit; first attempt: " + o.FirstTry + ")"
 	}
